@@ -7,6 +7,9 @@
 (* of the databases inside a phase:                                                              *)
 (*    dirty marks on ALL open databases (also those queued for dropping; a database that does    *)
 (*    not exist yet is created first)  ->  queued drops  ->  data  ->  clean marks.               *)
+(* The data of one database may be written in several batches (any partition of its overlay:      *)
+(* a large flush is split into write batches); the first clean mark is written only when no       *)
+(* database of the flush has unwritten data left.                                                 *)
 (* This is the order that satisfies CrashConsistent.  DropsFirst = TRUE is the order of the code  *)
 (* before the repair of F11 (queued drops, then dirty marks on the remaining databases); it is    *)
 (* kept only to reproduce F11 in the model.                                                       *)
@@ -25,7 +28,7 @@ VARIABLES dur,      \* durable state (Durable.tla)
           over,     \* db -> key -> Vals \cup {Absent (tombstone), UNSET}: volatile overlay
           opened,   \* databases with a wrapper in the pool
           qdrop,    \* queued drops
-          fl,       \* running flush: [on, dirty, drop, data, clean] = databases still to handle per phase
+          fl,       \* running flush: [on, dirty, drop, clean] = databases still to handle per phase, cleaning = a clean mark was written
           fid,      \* id of the running / last flush
           hist,     \* flush id -> Contents at completion
           ndrops,   \* drops queued so far (bound)
@@ -34,10 +37,13 @@ VARIABLES dur,      \* durable state (Durable.tla)
 pvars == <<dur, over, opened, qdrop, fl, fid, hist, ndrops, pc, res>>
 
 NoOver == [k \in Keys |-> UNSET]
-NoFlush == [on |-> FALSE, dirty |-> {}, drop |-> {}, data |-> {}, clean |-> {}]
-Done(f) == f.dirty = {} /\ f.drop = {} /\ f.data = {} /\ f.clean = {}
+NoFlush == [on |-> FALSE, dirty |-> {}, drop |-> {}, clean |-> {}, cleaning |-> FALSE]
+Done(f) == f.dirty = {} /\ f.drop = {} /\ f.clean = {}
 \* the keys a flush writes for an overlay
 OverWrites(o) == [k \in {x \in Keys : o[x] # UNSET} |-> o[k]]
+Pending(d) == {k \in Keys : over[d][k] # UNSET}
+\* w writes some of the pending keys of d with their overlay values
+PartOf(w, d) == DOMAIN w \subseteq Pending(d) /\ \A k \in DOMAIN w : w[k] = over[d][k]
 
 PInit == /\ dur = NoDBs /\ over = [d \in DBs |-> NoOver] /\ opened = {} /\ qdrop = {}
          /\ fl = NoFlush /\ fid = 0 /\ hist = <<>> /\ ndrops = 0 /\ pc = "run" /\ res = [v |-> "-", id |-> 0]
@@ -71,17 +77,17 @@ StartFlushE(id) ==
               keep == opened \ qdrop IN
           /\ opened' = opened \ gone /\ qdrop' = qdrop \ gone
           /\ over' = [d \in DBs |-> IF d \in gone THEN NoOver ELSE over[d]]
-          /\ Finish([on |-> TRUE, dirty |-> keep, drop |-> qdrop \ gone, data |-> keep, clean |-> keep], dur)
+          /\ Finish([on |-> TRUE, dirty |-> keep, drop |-> qdrop \ gone, clean |-> keep, cleaning |-> FALSE], dur)
      ELSE /\ UNCHANGED <<opened, qdrop, over>>
-          /\ Finish([on |-> TRUE, dirty |-> opened, drop |-> qdrop, data |-> opened \ qdrop, clean |-> opened \ qdrop], dur)
+          /\ Finish([on |-> TRUE, dirty |-> opened, drop |-> qdrop, clean |-> opened \ qdrop, cleaning |-> FALSE], dur)
   /\ UNCHANGED <<dur, ndrops, pc, res>>
 StartFlush(id) == StartFlushG(id) /\ StartFlushE(id)
 
 (* ---------------- durable micro-steps of a flush ---------------- *)
 DirtyPhase == IF DropsFirst THEN fl.drop = {} ELSE TRUE
 DropPhase == IF DropsFirst THEN TRUE ELSE fl.dirty = {}
-DataPhase == fl.dirty = {} /\ fl.drop = {}
-CleanPhase == DataPhase /\ fl.data = {}
+DataPhase == fl.dirty = {} /\ fl.drop = {} /\ ~fl.cleaning
+CleanPhase == fl.dirty = {} /\ fl.drop = {} /\ \A x \in fl.clean : Pending(x) = {}
 
 DoCreateG(d) == Flushing /\ d \in fl.dirty /\ ~dur[d].ex /\ DirtyPhase
 DoCreateE(d) == dur' = CreateEff(dur, d) /\ UNCHANGED <<over, opened, qdrop, fl, fid, hist, ndrops, pc, res>>
@@ -96,21 +102,26 @@ DoDirty(d) == DoDirtyG(d) /\ DoDirtyE(d)
 DoDropG(d) == Flushing /\ d \in fl.drop /\ DropPhase
 DoDropE(d) == /\ dur' = DropEff(dur, d) /\ fid' = fid
               /\ over' = [over EXCEPT ![d] = NoOver] /\ opened' = opened \ {d} /\ qdrop' = qdrop \ {d}
-              /\ Finish([fl EXCEPT !.drop = @ \ {d}, !.dirty = @ \ {d}, !.data = @ \ {d}, !.clean = @ \ {d}], dur')
+              /\ Finish([fl EXCEPT !.drop = @ \ {d}, !.dirty = @ \ {d}, !.clean = @ \ {d}], dur')
               /\ UNCHANGED <<ndrops, pc, res>>
 DoDrop(d) == DoDropG(d) /\ DoDropE(d)
 
-\* w = the batch the flush writes into d
-DoDataG(d, w) == Flushing /\ d \in fl.data /\ DataPhase /\ w = OverWrites(over[d])
-DoDataE(d, w) == /\ dur' = WriteEff(dur, d, w) /\ fid' = fid
-                 /\ over' = [over EXCEPT ![d] = NoOver]
-                 /\ Finish([fl EXCEPT !.data = @ \ {d}], dur')
-                 /\ UNCHANGED <<opened, qdrop, ndrops, pc, res>>
-DoData(d) == DoDataG(d, OverWrites(over[d])) /\ DoDataE(d, OverWrites(over[d]))
+\* w = one write batch of the flush into d: some of d's pending overlay entries (possibly none)
+DoDataG(d, w) == Flushing /\ d \in fl.clean /\ DataPhase /\ PartOf(w, d)
+DoDataE(d, w) == /\ dur' = WriteEff(dur, d, w)
+                 /\ over' = [over EXCEPT ![d] = [k \in Keys |-> IF k \in DOMAIN w THEN UNSET ELSE over[d][k]]]
+                 /\ UNCHANGED <<opened, qdrop, fl, fid, hist, ndrops, pc, res>>
+DoData(d, w) == DoDataG(d, w) /\ DoDataE(d, w)
+\* outside the protocol (trace specification only): a write batch that also carries a flush mark m
+DoDataMarkE(d, w, m) ==
+  /\ dur' = MarkEff(WriteEff(dur, d, w), d, m) /\ fid' = fid
+  /\ over' = [over EXCEPT ![d] = [k \in Keys |-> IF k \in DOMAIN w THEN UNSET ELSE over[d][k]]]
+  /\ Finish(IF m[1] = "C" THEN [fl EXCEPT !.clean = @ \ {d}, !.cleaning = TRUE] ELSE [fl EXCEPT !.dirty = @ \ {d}], dur')
+  /\ UNCHANGED <<opened, qdrop, ndrops, pc, res>>
 
 DoCleanG(d, id) == Flushing /\ d \in fl.clean /\ CleanPhase /\ id = fid
 DoCleanE(d, id) == /\ dur' = MarkEff(dur, d, CleanMark(id)) /\ fid' = fid
-                   /\ Finish([fl EXCEPT !.clean = @ \ {d}], dur')
+                   /\ Finish([fl EXCEPT !.clean = @ \ {d}, !.cleaning = TRUE], dur')
                    /\ UNCHANGED <<over, opened, qdrop, ndrops, pc, res>>
 DoClean(d) == DoCleanG(d, fid) /\ DoCleanE(d, fid)
 
@@ -122,7 +133,8 @@ Restart == /\ pc = "crashed" /\ pc' = "restarted"
            /\ res' \in Verdicts(dur)
            /\ UNCHANGED <<dur, over, opened, qdrop, fl, fid, hist, ndrops>>
 
-PNext == \/ \E d \in DBs : Open(d) \/ QDrop(d) \/ DoCreate(d) \/ DoDirty(d) \/ DoDrop(d) \/ DoData(d) \/ DoClean(d)
+PNext == \/ \E d \in DBs : Open(d) \/ QDrop(d) \/ DoCreate(d) \/ DoDirty(d) \/ DoDrop(d) \/ DoClean(d)
+         \/ \E d \in DBs : \E S \in SUBSET Pending(d) : S # {} /\ DoData(d, [k \in S |-> over[d][k]])
          \/ \E d \in DBs, k \in Keys, v \in Vals \cup {Absent} : Put(d, k, v)
          \/ StartFlush(fid + 1) \/ Crash \/ Restart
 PSpec == PInit /\ [][PNext]_pvars
@@ -133,4 +145,5 @@ CrashConsistent == pc = "restarted" => VerdictConsistent(dur, hist, res)
 CrashConsistentEverywhere == pc = "run" => CrashConsistentAt(dur, hist)
 TypeOK == /\ qdrop \subseteq opened /\ fid \in 0..MaxFlush /\ DOMAIN hist \subseteq 1..MaxFlush
           /\ (fl.on => ~Done(fl)) /\ fl.drop \subseteq qdrop
+          /\ (~fl.on => \A d \in DBs : d \notin opened => Pending(d) = {})
 =============================================================================
